@@ -278,15 +278,17 @@ class Scheduler:
                 self.cv.wait(timeout=60)
 
 
-def thread_jobs():
-    """name -> (operation on a private pool)"""
-    return {"t1": {"a": "Fire", "c": "c1", "s": "s1", "arg": "extra"}, "t2": {"a": "Danger", "c": "c2", "s": "s3", "arg": "extra"},
+def thread_jobs(variant=0):
+    """name -> (operation on a private pool).  variant 1: every thread's calculator has the SAME configuration (distinct
+    calculator objects that compare equal: anything keyed by configuration instead of by calculator would be shared)"""
+    return {"t1": {"a": "Fire", "c": "c1", "s": "s1", "arg": "extra"},
+            "t2": {"a": "Danger", "c": "c1" if variant else "c2", "s": "s3", "arg": "extra"},
             "t3": {"a": "Zero", "c": "c1", "s": "s2", "arg": "d2"}}
 
 
-def run_schedule(sched, blocks, seq_fp, iters):
+def run_schedule(sched, blocks, seq_fp, iters, variant=0):
     names_order = sorted(set(sched))
-    jobs = thread_jobs()
+    jobs = thread_jobs(variant)
     pools = {n: Pool() for n in names_order}
     results = {}
     sch = Scheduler({}, blocks, {n: max(1, iters[n] // blocks) for n in names_order})
@@ -342,22 +344,27 @@ def threads_part(chk, thorough, rng):
         gen3 = core.run_tlc("Gen_Threads", cfg3 + "SPECIFICATION Spec\nINVARIANT Emit\n", defs=defs3, workers=1, tags=["SCHED"])
         scheds += gen3.out("SCHED")
     # sequential results and iteration counts (block size = iterations / blocks)
-    jobs = thread_jobs()
-    seq, iters = {}, {}
-    for n, job in jobs.items():
-        core.reset_world()
-        p = Pool()
-        rec = integ.Recorder(keep_integrate=True).install()
-        seq[n] = do_op(p, job)
-        rec.remove()
-        iters[n] = max(1, sum(len(c["iters"]) for c in rec.calls) + sum(ic["n"] for z in rec.zcalls for ic in z["integrate_calls"]))
-    for sched in scheds:
-        res = run_schedule(sched, blocks, seq, iters)
+    seqs, iterss = {}, {}
+    for variant in (0, 1):
+        seqs[variant], iterss[variant] = {}, {}
+        for n, job in thread_jobs(variant).items():
+            core.reset_world()
+            p = Pool()
+            rec = integ.Recorder(keep_integrate=True).install()
+            seqs[variant][n] = do_op(p, job)
+            rec.remove()
+            iterss[variant][n] = max(1, sum(len(c["iters"]) for c in rec.calls) + sum(ic["n"] for z in rec.zcalls for ic in z["integrate_calls"]))
+    jobs, seq = thread_jobs(0), seqs[0]
+    for si, sched in enumerate(scheds):
+        variant = si % 2
+        res = run_schedule(sched, blocks, seqs[variant], iterss[variant], variant)
         chk.count(1, ("sched", tuple(sched)))
         chk.stratum("schedule")
+        chk.stratum("schedule_equal_configurations" if variant else "schedule_different_configurations")
         for n, fp in res.items():
-            if fp != seq[n]:
-                chk.violation("C10.ThreadsInterfere", {"thread": n, "source": "schedule"}, {"schedule": sched, "got_kind": fp[0]})
+            if fp != seqs[variant][n]:
+                chk.violation("C10.ThreadsInterfere", {"thread": n, "source": "schedule", "equal_configurations": bool(variant)},
+                              {"schedule": sched, "got_kind": fp[0]})
         chk.traces += 1
     chk.sample({"schedule": scheds[len(scheds) // 2]})
     # free-running threads with a tiny switch interval (preemption between any two bytecodes)
@@ -413,7 +420,7 @@ def run(chk: core.Check, replay=None) -> None:
     chk.sample({"history": behs[0]})
     threads_part(chk, thorough, rng)
     chk.require_strata(["op_Fire", "op_FireRaises", "op_Zero", "op_ZeroRaises", "op_Danger", "op_Build", "op_EditTable", "op_FireBadTable",
-                        "table_edited_in_place", "quantities_redisplayed_and_preferences_switched", "zero_written", "schedule",
+                        "table_edited_in_place", "quantities_redisplayed_and_preferences_switched", "zero_written", "schedule", "schedule_equal_configurations", "schedule_different_configurations",
                         "free_running"])
     chk.exhaustive = False
     chk.rule.append("TLC-simulated session histories of 6 operations over 3 shots (shared weapon / shared ammunition, with and without "
